@@ -16,7 +16,12 @@ also driven as a STATE MACHINE: sequences of genuine and junk units (every junk 
 before and after the genuine unit, and "poison-all") on ONE real validator instance, with hand-built units
 whose Merkle leaves use the encoding that validator verifies (so H17 does not mask it); a rejected unit must
 leave no trace, a genuine unit is accepted iff its index was not accepted before, and the accepted shards
-must still reach the build threshold and rebuild the message
+must still reach the build threshold and rebuild the message.  Two monitors of the API-level machine of the
+spec (calls of several messages in flight interleave; results depend on the own message only and are values):
+a CONCURRENT round (8 goroutines x N honest create / verify-every-proof / rebuild-from-a-random-sufficient-subset
+round trips on distinct messages at the same time) and a RETAINED-RESULT check (every value handed back by the
+package - rebuilt messages, local shards and proofs, unit shards / proofs / signatures, padded / unpadded buffers -
+is kept and compared again with a private copy after thousands of later calls)
 (msg bit-for-bit | err | panic | other).  Equal to the repaired table: fine.  Equal to the as-is
 table only: a divergence keyed by the modelled defect.  Anything else: a divergence keyed by the case.
 """
@@ -48,6 +53,8 @@ def run(ctx):
                       timeout=2400, coverage=thorough)
     if thorough:
         vlib.require_actions_covered(r)
+    ctx.tlc_check("consensus", "MCPropeller.tla", "Propeller_api.cfg", timeout=600,
+                  label="API-level machine: interleaved calls on 2 messages, results are values")
     m = ctx.tlc_check("consensus", "MCPropeller.tla", "Propeller_ascode.cfg", timeout=900, expect_violation=True,
                       label="the code as it is (Fix* = FALSE)")
     if m["ok"]:
@@ -69,16 +76,19 @@ def replay_tables(ctx, binary, thorough):
     if len(fix) != len(cur) or len(fix) < 13:
         raise vlib.Broken("expected one table per configuration, got %d / %d" % (len(fix), len(cur)))
     fix.sort(key=lambda t: (t["d"] + t["p"], t["d"]))
-    res = ctx.run_engine(binary, "TestPropellerReplay", {"fix": fix, "cur": cur, "seed": ctx.seed, "full": thorough},
+    res = ctx.run_engine(binary, "TestPropellerReplay", {"fix": fix, "cur": cur, "seed": ctx.seed, "full": thorough,
+                                                            "concurrent": {"goroutines": 8, "rounds": 600 if thorough else 150}},
                          timeout=3000)
     ctx.absorb(res, "propeller", "TestPropellerReplay")
     st = res.get("stats", {})
-    for need in ("cases:honest", "cases:corrupt", "cases:byz", "cases:validate", "cases:proto", "cases:create", "cases:sched", "cases:session"):
-        if not st.get(need):
-            raise vlib.Broken("vacuity: the replay ran no %s" % need)
-    if st.get("session_setup_impossible"):
-        raise vlib.Broken("the validator accepts hand-built genuine units in neither leaf encoding: the stateful "
-                          "validator sequences could not be driven (%d plans)" % st["session_setup_impossible"])
+    if not ctx.violations:   # vacuity guards; a run that already observed a violation reports that instead
+        for need in ("cases:honest", "cases:corrupt", "cases:byz", "cases:validate", "cases:proto", "cases:create",
+                     "cases:sched", "cases:session", "cases:concurrent", "retained_values_rechecked"):
+            if not st.get(need):
+                raise vlib.Broken("vacuity: the replay ran no %s" % need)
+        if st.get("session_setup_impossible"):
+            raise vlib.Broken("the validator accepts hand-built genuine units in neither leaf encoding: the stateful "
+                              "validator sequences could not be driven (%d plans)" % st["session_setup_impossible"])
     ctx.coverage["configurations"] = ["(%d,%d)" % (t["d"], t["p"]) for t in fix]
     ctx.coverage["cases_replayed"] = res.get("steps", 0)
     ctx.assumptions += [
